@@ -9,8 +9,8 @@ const Bech32Charset = "qpzry9x8gf2tvdw0s3jn54khce6mua7l"
 // division with GF(32) multiplication, not by the packed-integer trick.
 var bech32Gen = []byte{29, 22, 20, 21, 29, 18}
 
-// gfMul multiplies in GF(32) modulo a^5 + a^3 + 1.
-func gfMul(a, b byte) byte {
+// gfMulSlow multiplies in GF(32) modulo a^5 + a^3 + 1 (shift-and-add).
+func gfMulSlow(a, b byte) byte {
 	var r byte
 	for i := 0; i < 5; i++ {
 		if b>>uint(i)&1 == 1 {
@@ -23,6 +23,18 @@ func gfMul(a, b byte) byte {
 	}
 	return r & 0x1f
 }
+
+// gfTab is the full 32x32 multiplication table, filled once from gfMulSlow.
+var gfTab = func() (t [32][32]byte) {
+	for a := 0; a < 32; a++ {
+		for b := 0; b < 32; b++ {
+			t[a][b] = gfMulSlow(byte(a), byte(b))
+		}
+	}
+	return
+}()
+
+func gfMul(a, b byte) byte { return gfTab[a&31][b&31] }
 
 // polyRem returns the coefficients (most significant first, len(gen)) of
 // (x^k-prefixed-with-1 polynomial) mod g, where the dividend is 1, v0, v1, ... (implicit leading 1).
